@@ -90,6 +90,12 @@ func DriverMain(args []string) int {
 	run := &Run{Prop: p, Tier: args[1], Seed: envInt("VERIF_SEED", 1), Root: root,
 		Results: map[int]*Result{}, Crashes: map[string]int{}, RaceKeys: map[string]int{}, start: time.Now()}
 	run.OutDir = filepath.Join(root, "out", p.ID)
+	if old, _ := filepath.Glob(filepath.Join(run.OutDir, "replay", "*.json")); len(old) > 0 && len(args) == 2 {
+		// replay files of earlier runs of this check are stale
+		for _, f := range old {
+			os.Remove(f)
+		}
+	}
 	os.MkdirAll(filepath.Join(run.OutDir, "replay"), 0o755)
 	scratchBase := os.Getenv("VERIF_SCRATCH")
 	if scratchBase == "" {
